@@ -65,7 +65,7 @@ type builtAsciiVector1PropertyReader struct {
 }
 
 func (bav3pr builtAsciiVector1PropertyReader) Read(buf []string, i int64) error {
-	v, err := strconv.ParseFloat(buf[bav3pr.offset], 32)
+	v, err := strconv.ParseFloat(buf[bav3pr.offset], 64)
 	if err != nil {
 		return err
 	}
